@@ -174,8 +174,21 @@ func runEqualsFieldCoverage(rr *RuleRun) {
 		reads := map[string]map[types.Object]bool{}
 		ranged := map[string]bool{}
 		lenCmp := map[string]bool{}
+		elems := map[string]map[types.Object]bool{} // container fields whose members are looked at (indexed or ranged), per side
+		noteElems := func(e ast.Expr) {
+			if se, ok := ast.Unparen(e).(*ast.SelectorExpr); ok {
+				if o := objOf(info, se.X); o == recvObj || o == asserted {
+					if elems[se.Sel.Name] == nil {
+						elems[se.Sel.Name] = map[types.Object]bool{}
+					}
+					elems[se.Sel.Name][o] = true
+				}
+			}
+		}
 		ast.Inspect(fd.Body, func(n ast.Node) bool {
 			switch x := n.(type) {
+			case *ast.IndexExpr:
+				noteElems(x.X)
 			case *ast.SelectorExpr:
 				if o := objOf(info, x.X); o == recvObj || o == asserted {
 					if reads[x.Sel.Name] == nil {
@@ -184,6 +197,7 @@ func runEqualsFieldCoverage(rr *RuleRun) {
 					reads[x.Sel.Name][o] = true
 				}
 			case *ast.RangeStmt:
+				noteElems(x.X)
 				if se, ok := ast.Unparen(x.X).(*ast.SelectorExpr); ok {
 					if o := objOf(info, se.X); o == recvObj || o == asserted {
 						ranged[se.Sel.Name] = true
@@ -204,6 +218,14 @@ func runEqualsFieldCoverage(rr *RuleRun) {
 		for _, f := range fields {
 			if !reads[f][recvObj] || !reads[f][asserted] {
 				problems = append(problems, fmt.Sprintf("field %s is not compared between the receiver and the other type", f))
+			}
+			if ft := fieldType(st, f); ft != nil {
+				switch ft.Underlying().(type) {
+				case *types.Map, *types.Slice:
+					if !elems[f][recvObj] || !elems[f][asserted] {
+						problems = append(problems, fmt.Sprintf("the members of container field %s are not compared on both sides (only its size or nothing is looked at): two types whose %s differ in content compare equal", f, f))
+					}
+				}
 			}
 			if ranged[f] && !lenCmp[f] {
 				problems = append(problems, fmt.Sprintf("field %s is ranged over on one side without comparing lengths: extra members of the other side go unnoticed", f))
@@ -230,6 +252,15 @@ func runEqualsFieldCoverage(rr *RuleRun) {
 			rr.OK(key, fd.Pos(), "asserts own type; compares fields "+strings.Join(fields, ","))
 		}
 	}
+}
+
+func fieldType(st *types.Struct, name string) types.Type {
+	for i := 0; st != nil && i < st.NumFields(); i++ {
+		if st.Field(i).Name() == name {
+			return st.Field(i).Type()
+		}
+	}
+	return nil
 }
 
 func lenOfField(info *types.Info, e ast.Expr) (string, types.Object) {
